@@ -32,8 +32,11 @@ Registered(s) == s \in DOMAIN pc /\ pc[s] # "start"
 Sending(s, id) == s \in DOMAIN pc /\ pc[s] = "send" /\ cur[s] # Nil /\ cur[s].id = id
 
 \* Nothing is in flight for any subscriber that is reading and has caught up; every cancelled stream has ended.
-Quiescent ==
+\* n = number of entries the real subscription map has at that moment: every subscriber that is owed messages must be
+\* in it, and nothing but the subscriptions the specification still has (no leak after a handler returned).
+Quiescent(n) ==
     /\ pub.pc = "idle"
+    /\ Cardinality({s \in subs : ~CanDrop(s)}) <= n /\ n <= Cardinality(subs)
     /\ \A s \in DOMAIN pc :
           /\ pc[s] # "start"
           /\ (Reading(s) /\ ~lag[s]) => (q[s] = <<>> /\ pc[s] = "loop")
@@ -57,7 +60,7 @@ Logged(ln) ==
       [] ln.ev = "Fail"            -> Fail(ln.a.s)
       [] ln.ev = "Cancel"          -> Cancel(ln.a.s)
       [] ln.ev = "Removed"         -> ln.a.s \in DOMAIN pc /\ pc[ln.a.s] = "done" /\ Same
-      [] ln.ev = "End"             -> Quiescent /\ Same
+      [] ln.ev = "End"             -> Quiescent(ln.a.nsubs) /\ Same
       [] OTHER                     -> FALSE     \* "Timeout" (a reproduced stall) is explained by nothing
 
 \* ---- silent (unlogged) internal steps, and the order in which they are tried.
